@@ -98,6 +98,9 @@ class Sync(object):
                 if left <= 0:
                     break
                 self.cv.wait(left)
+            settle = need > 0 and p > 0 and self.script[p - 1].startswith(other)
+        if settle:
+            time.sleep(0.12)          # let the providers carry what the other side just did across (two polling periods)
 
 
 def ac_segments(script):
@@ -157,8 +160,8 @@ def run_script(script, triple=(1, 2, 3), rq_reason=5, ac_reason=5, timeout=3, or
                 return
             elif a == 'AcAbort':
                 sync.before('Ac', a)
-                sync.emit('Ac', a, r=ac_reason)
                 asce.abort(ac_reason)
+                sync.emit('Ac', a, r=ac_reason)        # logged once the A-ABORT has left and the provider is stopped
                 return
             elif a == 'AcRelease':
                 sync.before('Ac', a)
@@ -247,8 +250,8 @@ def run_script(script, triple=(1, 2, 3), rq_reason=5, ac_reason=5, timeout=3, or
                             sync.emit('Rq', 'RqRecv', res='PD', f=[])
                         elif a == 'RqAbort':
                             sync.before('Rq', a)
-                            sync.emit('Rq', a, r=rq_reason)
                             assoc.abort(rq_reason)
+                            sync.emit('Rq', a, r=rq_reason)
                             raise _Leave()
                         elif a == 'RqExitNormal':
                             sync.before('Rq', a)
@@ -363,6 +366,23 @@ def plan(tier, rng):
                 jobs.append((list(s), values()))
         for key, ss in sorted(projections(v2).items()):
             jobs.append((list(ss[0]), dict(values(), ordered=False)))
+        # two requests with the order followed: interleavings sampled by TLC's simulator from the same model
+        rs = tlc.run('MC_AssocLife', 'MC_AssocLife_sim.cfg', workers=8, simulate='num=6000', depth=60, deadlock_off=True, timeout=600, seed=rng.randint(1, 10 ** 6))
+        if not rs.ok:
+            raise Machinery('simulation of AssocLife failed: %s %s' % (rs.violated, rs.errors[:2]))
+        sim = {tuple(v['script']) for v in tlc.printed_values(rs.out) if isinstance(v, dict) and 'script' in v}
+        known = {tuple(j[0]) for j in jobs}
+
+        def late(sc):       # one side ends the association and the other still acts afterwards: the interesting orders
+            for k, a in enumerate(sc):
+                if a in ('AcAbort', 'AcRelease', 'RqAbort', 'RqExitError', 'RqExitNormal'):
+                    return sum(1 for b in sc[k + 1:] if b[:2] != a[:2] and b in DRIVER_ACTIONS)
+            return 0
+        for key, ss in sorted(projections([{'script': list(x)} for x in sim if x not in known]).items()):
+            ss.sort(key=lambda sc: (-late(sc), sc))
+            for sc in ss[:2]:
+                jobs.append((list(sc), values()))
+        mcs.append(('MC_AssocLife_sim.cfg (simulation)', rs, len(sim)))
     else:
         r1, v1 = scripts('MC_AssocLife', 'MC_AssocLife.cfg')
         mcs = [('MC_AssocLife.cfg', r1, len(v1))]
